@@ -4,14 +4,14 @@ from fv.symx import And, Or, Not, Eq, Implies, Iff
 
 # module kinds -------------------------------------------------------------------------------------
 # every builder returns (yaml-info dict, spec record) ; numbers come from I (symbolic or concrete)
-KINDS = ['F1flat', 'H1flat', 'H2eq', 'S2eq', 'S_area', 'S_center_ar', 'S_regions', 'S_one_region', 'S_one_region_rect', 'S_rect', 'S_center_rects', 'S_regions_rects', 'H1', 'H2flip', 'H2', 'H3', 'F1', 'T', 'Tfixed']
+KINDS = ['F1flat', 'H1flat', 'H2eq', 'S2eq', 'S_area', 'S_center_ar', 'S_regions', 'S_one_region', 'S_one_region_rect', 'S_rect', 'S_center_rects', 'S_regions_rects', 'H1', 'H2flip', 'H2', 'H3', 'F1', 'T', 'Tfixed', 'T_rect', 'Tfixed_rect']
 
 
 def build_module(I, name, kind, idx):
     t = f'm{idx}'
     x0 = 10.0 * idx  # modules are laid out side by side so that nothing depends on inter-module overlap
-    spec = dict(name=name, kind=kind, soft=kind.startswith('S'), hard=not kind.startswith('S'), fixed=kind in ('F1', 'F1flat', 'Tfixed'),
-                terminal=kind in ('T', 'Tfixed'), flip=kind == 'H2flip', areas=None, center=None, ar=None, rects=[])
+    spec = dict(name=name, kind=kind, soft=kind.startswith('S'), hard=not kind.startswith('S'), fixed=kind in ('F1', 'F1flat', 'Tfixed', 'Tfixed_rect'),
+                terminal=kind in ('T', 'Tfixed', 'T_rect', 'Tfixed_rect'), flip=kind == 'H2flip', areas=None, center=None, ar=None, rects=[])
     info = {}
     if kind == 'S_area':
         a = I.real(t + 'a', 0.01, 100)
@@ -109,6 +109,14 @@ def build_module(I, name, kind, idx):
         cx, cy = I.real(t + 'cx', 0, 100), I.real(t + 'cy', 0, 100)
         info = {'terminal': True, 'fixed': True, 'center': [cx, cy]}
         spec['center'] = (cx, cy)
+    elif kind in ('T_rect', 'Tfixed_rect'):
+        # an I/O pad with a footprint: a terminal (movable / fixed) that states its centre and has a rectangle
+        x, w = I.real(t + 'x', 0, 5), I.real(t + 'w', 0.1, 4)
+        r0 = [x0 + x + w / 2, 0.5, w, 1.0]
+        info = {'terminal': True, 'center': [r0[0], 0.5], 'rectangles': [r0]}
+        if kind == 'Tfixed_rect':
+            info['fixed'] = True
+        spec['rects'] = [tuple(r0) + ('_',)]
     else:
         raise AssertionError(kind)
     return info, spec
@@ -192,6 +200,7 @@ STRUCTS = {
         dict(modules=['F1flat', 'H2eq', 'S2eq'], nets=[((0, 1), 'sym'), ((1, 2), 'none')]),
         dict(modules=['H1flat', 'S_area'], nets=[((0, 1), 'one')]),
         dict(modules=['S_center_rects', 'Tfixed'], nets=[((0, 1), 'sym')]),
+        dict(modules=['Tfixed_rect', 'S_area', 'T_rect'], nets=[((0, 1), 'sym'), ((1, 2), 'none')]),
     ],
     'thorough': [
         dict(modules=['S_regions', 'H2flip', 'F1'], nets=[((0, 1, 2), 'sym'), ((2, 0), 'none')]),
